@@ -776,6 +776,108 @@ def r11(k: Kit) -> None:
               str(bad), fi.loc(fi.node))
 
 
+def r12(k: Kit) -> None:
+    """FX_EOF ends a read, never a write."""
+    from ..index import parent
+    rep = k.rep
+    rep.rule('C12.R12', 'the parallel I/O loop treats SFTPEOFError from any '
+             'block task as the clean end of the data; that is right for '
+             'READ only, so SFTPClientHandler.write turns an EOF status '
+             'answering FXP_WRITE into a failure before it can reach the '
+             'loop - otherwise write() / put() / copy() report success with '
+             'the blocks after the first such answer missing')
+    it = k.func('sftp._SFTPParallelIO.iter')
+    swallow = [h for t in ast.walk(it.node) if isinstance(t, ast.Try)
+               for h in t.handlers if h.type is not None and
+               'SFTPEOFError' in unparse(h.type) and
+               not any(isinstance(x, ast.Raise) for x in ast.walk(h))]
+    if not swallow:
+        rep.ok('C12.R12', key(it, 'EOF not swallowed by the I/O loop'),
+               'no handler ends the iteration on SFTPEOFError')
+        return
+    wr = k.func('sftp.SFTPClientHandler.write')
+    sites = [c for c in ast.walk(wr.node) if isinstance(c, ast.Call) and
+             is_call(c, '_make_request', 'self')]
+    rep.floor('C12.R12', 'write request sites', len(sites), 1)
+    for c in sites:
+        ok = False
+        x = c
+        while x is not None and x is not wr.node:
+            x = parent(x)
+            if isinstance(x, ast.Try):
+                for h in x.handlers:
+                    if h.type is not None and \
+                            'SFTPEOFError' in unparse(h.type) and any(
+                                isinstance(r, ast.Raise) and r.exc is not None
+                                and 'EOF' not in unparse(r.exc).split('(')[0]
+                                for r in ast.walk(h)):
+                        ok = True
+        rep.check(ok, 'C12.R12', key(wr, 'EOF reply to a write is a failure'),
+                  'SFTPEOFError from FXP_WRITE is re-raised as another '
+                  'SFTPError',
+                  'a server answering WRITE blocks with FX_EOF makes '
+                  'f.write(64 KiB) return 65536 with only the first blocks '
+                  'in the file: _SFTPParallelIO.iter takes the EOF of a '
+                  'writer task for the end of the data', wr.loc(c))
+
+
+def r13(k: Kit) -> None:
+    """read() to end of file goes through the block reader."""
+    rep = k.rep
+    rep.rule('C12.R13', 'SFTPClientFile.read: once the size has been '
+             'replaced by "end of file - offset" (size < 0: everything up to '
+             'the end), the single un-retried handler.read() is reachable '
+             'only when block reads are disabled (read_len == 0); otherwise '
+             'the request goes through _SFTPFileReader, which re-requests '
+             'the remainder of a short reply - a server may return fewer '
+             'bytes than asked for at any time')
+    fi = k.func('sftp.SFTPClientFile.read')
+    g = k.cfg(fi)
+    ends = [n for n, c in k.calls_named(fi, '_end', 'self')]
+    direct = [n for n, c in k.calls_named(fi, 'read', 'self._handler')]
+    rep.floor('C12.R13', 'read-to-end size computations', len(ends), 1)
+    rep.floor('C12.R13', 'single READ sites', len(direct), 1)
+
+    rd = k.rd(fi)
+    for e in ends:
+        # flags known to be true where the end-of-file size is computed
+        # (assigned once, and the computation is reached only on their
+        # true edge): their false edge is infeasible afterwards
+        known = set()
+        for a in g.nodes:
+            v = a.ast.id if a.kind == 'atom' and isinstance(a.ast, ast.Name) \
+                else None
+            if v is None or v in known:
+                continue
+            ndefs = [n for n in g.nodes
+                     if any(nm == v for nm, _ in rd.defs[n.id])]
+            if len(ndefs) == 1 and g.guarded_by(
+                    e.id, lambda x, v=v: True if x.kind == 'atom' and
+                    isinstance(x.ast, ast.Name) and x.ast.id == v
+                    else None) is None:
+                known.add(v)
+
+        def blocks_off(x: Node, known=known) -> Optional[bool]:
+            if x.kind == 'atom' and dotted(x.ast) == 'self.read_len':
+                return False
+            if x.kind == 'atom' and isinstance(x.ast, ast.Name) and \
+                    x.ast.id in known:
+                return False
+            return None
+        for d in direct:
+            w = g.guarded_by(d.id, blocks_off, start=e.id)
+            rep.check(w is None, 'C12.R13',
+                      key(fi, 'read to end survives short replies'),
+                      'no path from the end-of-file size to a single READ '
+                      'while block reads are enabled',
+                      'read() with size -1 ("all data up to the end of the '
+                      'file") issues one READ when the file fits a block and '
+                      'returns whatever came back: with a server that '
+                      'answers at most 4096 bytes per READ a 10000-byte file '
+                      'reads as 4096 bytes, no error', k.loc(fi, d),
+                      g.describe_path(w) if w else None)
+
+
 def run(idx, rep, tier):
     k = Kit(idx, rep)
     rep.assumptions += NOT_DECIDED
@@ -790,3 +892,5 @@ def run(idx, rep, tier):
     r9(k)
     r10(k)
     r11(k)
+    r12(k)
+    r13(k)
